@@ -10,7 +10,9 @@
 (*     [op |-> "inc" | "exc" | "find" | "one",  col |-> column of find_<col> or "",             *)
 (*      pos |-> <<pool slots handed over positionally, in this order>>,                         *)
 (*      kw  |-> 0 or the slot of a dict handed over as keywords, ** q,                       *)
-(*      x   |-> 0 or the slot of a dict given as one_or_none(..., exc = q)]                     *)
+(*      x   |-> 0 or the slot of a dict given as one_or_none(..., exc = q),                     *)
+(*      on  |-> "t" (the call is made on the session's table) | "last" (on the table the previous *)
+(*              call returned:  r = t.inc(q1, q2);  r.inc(q1, q2)  - idempotence as a history)]    *)
 (* e.g.  t.inc(q1, q2)   t.exc(q2, f)   t.find_a(q1, **q2)   t.one_or_none(q1, exc = q2).       *)
 (* The statement's "conjunction of column conditions" is the union of the conditions of all     *)
 (* the dicts of the call, whatever the spelling.                                                *)
@@ -75,6 +77,7 @@ OneSel(t, p, c) == LET sel == IncC(t, CondOf(p, c)) IN
                    IF c.x = 0 THEN sel.rows ELSE Exc(sel, [kind |-> "kw", items |-> p[c.x].items]).rows
 
 TabOut(tt) == [kind |-> "table", cols |-> tt.cols, rows |-> tt.rows]
+TableOf(out, cols) == [cols |-> cols, rows |-> out.rows]       \* a returned table as the operand of the next call
 RaisesOut(cls) == [kind |-> "exc", cls |-> cls]
 FindC(t, col, cd) ==
     LET sel == IncC(t, cd).rows
